@@ -24,6 +24,8 @@ pub enum Op {
     P,
     /// poll until Pending or terminal
     PP,
+    /// flush, then poll until Pending or terminal (availability right after the flush)
+    FPP,
     A,
     DW,
     DB,
@@ -37,6 +39,7 @@ impl Op {
             Op::F => json!("flush"),
             Op::P => json!("poll"),
             Op::PP => json!("poll_until_pending"),
+            Op::FPP => json!("flush_then_poll_until_pending"),
             Op::A => json!("abort"),
             Op::DW => json!("drop_writer"),
             Op::DB => json!("drop_body"),
@@ -48,6 +51,7 @@ impl Op {
                 "flush" => Op::F,
                 "poll" => Op::P,
                 "poll_until_pending" => Op::PP,
+                "flush_then_poll_until_pending" => Op::FPP,
                 "abort" => Op::A,
                 "drop_writer" => Op::DW,
                 "drop_body" => Op::DB,
@@ -97,6 +101,8 @@ pub struct Config {
     /// Accept-Encoding request header, if any.
     pub accept: Option<String>,
     pub payload: Payload,
+    /// the consumer presents a different waker at every poll
+    pub fresh_wakers: bool,
 }
 
 impl Config {
@@ -105,7 +111,7 @@ impl Config {
         self.accept.is_some() && self.level > 0
     }
     pub fn to_json(&self) -> serde_json::Value {
-        json!({"chunk_size": self.chunk, "gzip_level": self.level, "accept_encoding": self.accept, "payload": format!("{:?}", self.payload)})
+        json!({"chunk_size": self.chunk, "gzip_level": self.level, "accept_encoding": self.accept, "payload": format!("{:?}", self.payload), "fresh_waker_per_poll": self.fresh_wakers})
     }
     pub fn from_json(v: &serde_json::Value) -> Config {
         Config {
@@ -117,6 +123,7 @@ impl Config {
                 Some("Mixed") => Payload::Mixed,
                 _ => Payload::Rand,
             },
+            fresh_wakers: v["fresh_waker_per_poll"].as_bool().unwrap_or(false),
         }
     }
 }
@@ -180,6 +187,9 @@ pub struct Exec {
     pub terminal_seen: Option<Obs>,
     polls_after_terminal: usize,
     pending_since_abort: bool,
+    /// the last poll returned Pending and nothing was polled since: wake count of the waker it
+    /// presented, at that moment
+    parked: Option<usize>,
     pub out: Vec<Finding>,
     log: Vec<String>,
 }
@@ -242,7 +252,12 @@ impl Exec {
             resp_headers,
             gz,
             w: w.map(crate::drive::LeakOnUnwind::new),
-            p: Some(Poller::new(body)),
+            p: Some({
+                let mut p = Poller::new(body);
+                p.fresh = cfg.fresh_wakers;
+                p
+            }),
+            parked: None,
             subject_panicked: false,
             accepted: Vec::new(),
             pos: 0,
@@ -287,6 +302,35 @@ impl Exec {
         if let Some(mut p) = self.p.take() {
             p.dead = true;
             drop(p);
+        }
+    }
+
+    /// Sequential half of C10: the consumer's last poll returned Pending (it is "parked" on the
+    /// waker it presented then). If the writer operation that just returned made something
+    /// observable -- flushed bytes not yet delivered, the end, an abort error -- that very waker
+    /// must have been woken by now.
+    fn check_woken(&mut self, what: &str) {
+        let Some(at_park) = self.parked else { return };
+        if self.body_gone || self.subject_panicked {
+            return;
+        }
+        let Some(p) = self.p.as_ref() else { return };
+        let now = p.last_waker_wakes();
+        let total = p.wakes();
+        let observable = match self.term {
+            Term::Live => {
+                if self.writer_failed {
+                    false
+                } else {
+                    let have = if self.gz { self.gzs.plain.len() } else { self.delivered.len() };
+                    self.flushed_upto > have
+                }
+            }
+            _ => self.terminal_seen.is_none(),
+        };
+        if observable && now == at_park {
+            self.out.push(fnd(&["C10"], "parked-consumer-not-woken", format!("the consumer's last poll returned Pending; {what} then made {} observable, but the waker presented at that poll was not woken ({} wake-up(s) went to other, stale wakers)", match self.term { Term::Live => "flushed data", Term::WriterDropped => "the end of the body", Term::Aborted => "the abort error" }, total.saturating_sub(now))));
+            self.parked = None; // report once
         }
     }
 
@@ -404,6 +448,7 @@ impl Exec {
         self.sample();
         let p = self.p.as_mut().unwrap();
         let o = p.poll();
+        self.parked = if o == Obs::Pending { Some(p.last_waker_wakes()) } else { None };
         if self.terminal_seen.is_some() {
             self.polls_after_terminal += 1;
             match &o {
@@ -550,18 +595,36 @@ impl Exec {
             return;
         }
         match op {
-            Op::W(n) => self.write_op(n, false),
-            Op::WA(n) => self.write_op(n, true),
+            Op::W(n) => {
+                self.write_op(n, false);
+                self.check_woken("a write");
+            }
+            Op::WA(n) => {
+                self.write_op(n, true);
+                self.check_woken("a write_all");
+            }
             Op::F => {
                 self.flush_op();
+                self.check_woken("a flush");
                 // availability is checked by the polls that follow in the history or the epilogue
             }
             Op::P => {
                 self.poll_op();
             }
             Op::PP => self.poll_until_pending(self.frame_horizon()),
-            Op::A => self.abort_op(),
-            Op::DW => self.drop_writer(),
+            Op::FPP => {
+                self.flush_op();
+                self.check_woken("a flush");
+                self.poll_until_pending(self.frame_horizon());
+            }
+            Op::A => {
+                self.abort_op();
+                self.check_woken("abort");
+            }
+            Op::DW => {
+                self.drop_writer();
+                self.check_woken("dropping the writer");
+            }
             Op::DB => self.drop_body(),
         }
     }
@@ -651,6 +714,7 @@ pub fn execute(cfg: &Config, ops: &[Op], extra_polls: usize) -> Outcome {
         x.sample();
         if x.term != Term::Aborted {
             x.drop_writer();
+            x.check_woken("dropping the writer");
         }
     }
     if x.p.is_some() {
@@ -726,7 +790,7 @@ pub fn alphabet(c: usize, with_wa: bool, with_abort: bool, with_db: bool, sizes:
             ops.push(Op::WA(n));
         }
     }
-    ops.extend([Op::F, Op::P, Op::PP]);
+    ops.extend([Op::F, Op::FPP, Op::P, Op::PP]);
     if with_abort {
         ops.push(Op::A);
     }
@@ -742,8 +806,11 @@ fn enabled(prefix: &[Op], op: Op) -> bool {
     let w_gone = prefix.contains(&Op::DW);
     let b_gone = prefix.contains(&Op::DB);
     match op {
-        Op::W(_) | Op::WA(_) | Op::F | Op::A | Op::DW => {
+        Op::W(_) | Op::WA(_) | Op::F | Op::FPP | Op::A | Op::DW => {
             if w_gone {
+                return false;
+            }
+            if b_gone && op == Op::FPP {
                 return false;
             }
             if b_gone {
@@ -888,7 +955,7 @@ pub fn run_c08(run: &mut Run) -> Stats {
         vec![(1, 5), (2, 5), (3, 4), (4, 4), (7, 4), (4096, 4), (65536, 3)],
         vec![(1, 6), (2, 6), (3, 5), (4, 5), (7, 5), (4096, 5), (65536, 4)],
     );
-    run.rule = "every history over {write(n), write_all(n), flush, poll, poll-until-pending, drop-writer} (n in 0..=3c for chunk size c <= 4, {0,1,c-1,c,c+1,2c,3c} otherwise) up to the stated depth, each followed by an epilogue (drop writer, drain, 2 extra polls); identity coding both without Accept-Encoding and with 'gzip' at level 0. Reference model = byte vector + cursors; checked after every operation: write returns 1..=n on a live body, delivered bytes are a prefix of accepted bytes, frames non-empty, Pending only when everything accepted before the last successful flush has been delivered, clean end after writer drop with delivered == accepted. plus 'long and narrow' histories: a unit of 1-3 operations ({write(n)}, {write_all(n)}, {write(n), flush}, {write_all(n), flush, drain}, {write(n), poll}, {write_all(n), flush, poll}, {write_all(n), write_all(1), flush}) repeated k times, k up to 100 (thorough: every k up to 130, then 255..257, 300, 1000), chunk sizes {4096, 1000, 65536, 3}, n in {1, c-1, c, c+1, 2c+1, 10007}. non-trivial = distinct (config, history)".into();
+    run.rule = "every history over {write(n), write_all(n), flush, flush-then-poll-until-pending, poll, poll-until-pending, drop-writer} (polls present one waker throughout, and in a second set of configurations a different waker at every poll) (n in 0..=3c for chunk size c <= 4, {0,1,c-1,c,c+1,2c,3c} otherwise) up to the stated depth, each followed by an epilogue (drop writer, drain, 2 extra polls); identity coding both without Accept-Encoding and with 'gzip' at level 0. Reference model = byte vector + cursors; checked after every operation: write returns 1..=n on a live body, delivered bytes are a prefix of accepted bytes, frames non-empty, Pending only when everything accepted before the last successful flush has been delivered, clean end after writer drop with delivered == accepted. plus 'long and narrow' histories: a unit of 1-3 operations ({write(n)}, {write_all(n)}, {write(n), flush}, {write_all(n), flush, drain}, {write(n), poll}, {write_all(n), flush, poll}, {write_all(n), write_all(1), flush}) repeated k times, k up to 100 (thorough: every k up to 130, then 255..257, 300, 1000), chunk sizes {4096, 1000, 65536, 3}, n in {1, c-1, c, c+1, 2c+1, 10007}. non-trivial = distinct (config, history)".into();
     run.bounds = json!({"chunk_size:depth": plan.iter().map(|(c, d)| format!("{c}:{d}")).collect::<Vec<_>>(), "extra_polls": 2});
     let mut total = Stats::new();
     let mut sat = Vec::new();
@@ -897,11 +964,20 @@ pub fn run_c08(run: &mut Run) -> Stats {
             if accept.is_some() && c > 4 {
                 continue;
             }
-            let cfg = Config { chunk: c, level: if accept.is_some() { 0 } else { 6 }, accept: accept.clone(), payload: Payload::Rand };
+            let cfg = Config { chunk: c, level: if accept.is_some() { 0 } else { 6 }, accept: accept.clone(), payload: Payload::Rand, fresh_wakers: false };
             let (st, shallow) = depth_states(&run.prop, &cfg, &|| alphabet(c, true, false, false, None), d, 2);
             sat.push(json!({"chunk": c, "accept_encoding": accept, "depth": d, "histories": st.evaluations, "states_at_depth": st.states.len(), "states_at_depth_minus_1": shallow}));
             total.merge(st);
         }
+    }
+    // the same histories with a different waker at every poll (the reader's clone_from path)
+    for (c, d) in tier.pick(vec![(1usize, 4usize), (2, 4), (4096, 3)], vec![(1, 5), (2, 5), (4, 4), (4096, 4)]) {
+        let cfg = Config { chunk: c, level: 6, accept: None, payload: Payload::Rand, fresh_wakers: true };
+        let mut sizes = vec![0, 1, c, c + 1];
+        sizes.dedup();
+        let st = sweep(&run.prop, &cfg, alphabet(c, true, false, false, Some(sizes)), d, 2);
+        sat.push(json!({"chunk": c, "fresh_waker_per_poll": true, "depth": d, "histories": st.evaluations, "states_at_depth": st.states.len()}));
+        total.merge(st);
     }
     run.extra.insert("per_config".into(), json!(sat));
     let lr = long_runs(&run.prop, tier, None, 2);
@@ -913,16 +989,16 @@ pub fn run_c08(run: &mut Run) -> Stats {
 pub fn run_c11_seq(run: &mut Run) -> Stats {
     let tier = run.tier;
     let plan: Vec<(usize, usize)> = tier.pick(vec![(1, 4), (2, 4), (3, 4), (4096, 3)], vec![(1, 5), (2, 5), (3, 5), (4, 4), (4096, 4)]);
-    run.rule = "every history over {write(n), flush, poll, poll-until-pending, abort, drop-writer, drop-body} up to the stated depth (abort / body-drop at every position), raw writer (no Accept-Encoding) and gzip writer (levels 1, 6), each followed by an epilogue: after abort drain + 2 polls; after body drop write(c), flush, write(1), flush must report an error. Oracle: after abort the next terminal event is Err(the abort error), never a clean end or Pending, delivered bytes a prefix of the written ones, is_end_stream false until the error was delivered, later write/flush fail; after body drop flush with unflushed bytes and every chunk-completing write fail, everything after the first error fails; plus a queue-release measurement (byte-counting allocator). non-trivial = distinct (config, history) containing abort or drop-body".into();
+    run.rule = "every history over {write(n), flush, flush-then-poll-until-pending, poll, poll-until-pending, abort, drop-writer, drop-body} up to the stated depth (abort / body-drop at every position), raw writer (no Accept-Encoding) and gzip writer (levels 1, 6), each followed by an epilogue: after abort drain + 2 polls; after body drop write(c), flush, write(1), flush must report an error. Oracle: after abort the next terminal event is Err(the abort error), never a clean end or Pending, delivered bytes a prefix of the written ones, is_end_stream false until the error was delivered, later write/flush fail; after body drop flush with unflushed bytes and every chunk-completing write fail, everything after the first error fails; plus a queue-release measurement (byte-counting allocator). non-trivial = distinct (config, history) containing abort or drop-body".into();
     run.bounds = json!({"chunk_size:depth": plan.iter().map(|(c, d)| format!("{c}:{d}")).collect::<Vec<_>>()});
     let mut total = Stats::new();
     for (c, d) in plan {
-        let cfg = Config { chunk: c, level: 6, accept: None, payload: Payload::Rand };
+        let cfg = Config { chunk: c, level: 6, accept: None, payload: Payload::Rand, fresh_wakers: c % 2 == 0 };
         total.merge(sweep(&run.prop, &cfg, alphabet(c, false, true, true, None), d, 2));
     }
     // gzip writer
     for (c, level, d) in tier.pick(vec![(7usize, 6u32, 3usize), (1, 1, 3)], vec![(7, 6, 4), (1, 1, 4), (4096, 9, 4)]) {
-        let cfg = Config { chunk: c, level, accept: Some("gzip".into()), payload: Payload::Rand };
+        let cfg = Config { chunk: c, level, accept: Some("gzip".into()), payload: Payload::Rand, fresh_wakers: c == 1 };
         total.merge(sweep(&run.prop, &cfg, alphabet(c, false, true, true, Some(vec![0, 1, 40, 300])), d, 2));
     }
     total.merge(release_check(&run.prop));
@@ -959,7 +1035,7 @@ pub fn run_c09(run: &mut Run) -> Stats {
     // short counts, which the BodyWriter must pass on faithfully
     let big: Vec<usize> = vec![1, 40_000, 200_000];
     let depth = tier.pick(3, 4);
-    run.rule = format!("every history over {{write(n), flush, poll, poll-until-pending, drop-writer}} of depth {depth} (+ epilogue) with Accept-Encoding: gzip, levels 1..9 x chunk sizes x payload classes (incompressible / 'a'-run / mixed; n in {{0, 1, 1/3, all}} of the class size), plus large incompressible write / write_all calls of 40 000 and 200 000 bytes (the encoder then reports short writes) at depth 3; oracle = independent RFC 1952 parser + own CRC-32 + miniz_oxide streaming inflater fed only the frames delivered so far: at every Pending after a successful flush everything written before it decodes (also probed by a 'ramp': T incompressible bytes in 500-byte writes then flush, for every T up to 140 000 (thorough 280 000) and every level); after writer drop exactly one member, CRC and ISIZE match the model's bytes, nothing trails; frames non-empty. non-trivial = distinct (config, history)");
+    run.rule = format!("every history over {{write(n), flush, flush-then-poll-until-pending, poll, poll-until-pending, drop-writer}} of depth {depth} (+ epilogue) with Accept-Encoding: gzip, levels 1..9 x chunk sizes x payload classes (incompressible / 'a'-run / mixed; n in {{0, 1, 1/3, all}} of the class size), plus large incompressible write / write_all calls of 40 000 and 200 000 bytes (the encoder then reports short writes) at depth 3; oracle = independent RFC 1952 parser + own CRC-32 + miniz_oxide streaming inflater fed only the frames delivered so far: at every Pending after a successful flush everything written before it decodes (also probed by a 'ramp': T incompressible bytes in 500-byte writes then flush, for every T up to 140 000 (thorough 280 000) and every level); after writer drop exactly one member, CRC and ISIZE match the model's bytes, nothing trails; frames non-empty. non-trivial = distinct (config, history)");
     run.bounds = json!({"levels": levels, "chunk_sizes": chunks, "depth": depth, "payload_classes": 3});
     let mut cfgs = Vec::new();
     for &c in &chunks {
@@ -968,13 +1044,13 @@ pub fn run_c09(run: &mut Run) -> Stats {
                 if *p == Payload::Mixed && !(l == 1 || l == 6 || l == 9) {
                     continue;
                 }
-                cfgs.push((Config { chunk: c, level: l, accept: Some("gzip".into()), payload: *p }, sizes.clone()));
+                cfgs.push((Config { chunk: c, level: l, accept: Some("gzip".into()), payload: *p, fresh_wakers: l % 2 == 0 }, sizes.clone()));
             }
         }
     }
     for &c in &tier.pick(vec![7usize, 65536], vec![1, 7, 4096, 65536]) {
         for &l in &tier.pick(vec![1u32, 6], vec![1, 2, 6, 9]) {
-            cfgs.push((Config { chunk: c, level: l, accept: Some("gzip".into()), payload: Payload::Rand }, big.clone()));
+            cfgs.push((Config { chunk: c, level: l, accept: Some("gzip".into()), payload: Payload::Rand, fresh_wakers: false }, big.clone()));
         }
     }
     run.extra.insert("configs".into(), json!(cfgs.len()));
@@ -1014,7 +1090,7 @@ pub fn run_c09(run: &mut Run) -> Stats {
     let mut total = total;
     total.merge(par_for(ramp.len() as u64, threads(), |i, st| {
         let (level, t) = ramp[i as usize];
-        let cfg = Config { chunk: 4096, level, accept: Some("gzip".into()), payload: Payload::Rand };
+        let cfg = Config { chunk: 4096, level, accept: Some("gzip".into()), payload: Payload::Rand, fresh_wakers: false };
         let mut ops: Vec<Op> = vec![Op::WA(step); t / step];
         ops.push(Op::F);
         ops.push(Op::PP);
@@ -1045,7 +1121,7 @@ pub fn run_c09(run: &mut Run) -> Stats {
             f.extend_from_slice(&(b.len() as u32).to_le_bytes());
             f.extend_from_slice(b);
         }
-        let _ = std::fs::write("/verif/target/c09-bodies.bin", f);
+        let _ = std::fs::write(format!("{}/target/c09-bodies.bin", crate::report::scratch_root()), f);
         run.extra.insert("distinct_bodies_dumped_for_zlib_crosscheck".into(), json!(g.len()));
     }
     total
@@ -1189,7 +1265,7 @@ pub fn long_runs(prop: &str, tier: Tier, gzip_level: Option<u32>, extra_polls: u
                         Some(l) => (Some("gzip".to_string()), l, if n % 2 == 0 { Payload::Rep } else { Payload::Rand }),
                         None => (None, 6, Payload::Rand),
                     };
-                    let cfg = Config { chunk: c, level, accept, payload };
+                    let cfg = Config { chunk: c, level, accept, payload, fresh_wakers: c % 2 == 1 };
                     // the same run followed by "flush, poll until Pending, one more byte": with the
                     // writer still alive, everything flushed must come out before a Pending
                     if !u.contains(&Op::PP) && (k <= 10 || k % 16 <= 1 || k >= 64) {
@@ -1226,17 +1302,17 @@ pub fn run_monitor(prop: &str, tier: Tier, extra_polls: usize) -> Stats {
     let mut total = Stats::new();
     // identity, no abort / body drop (C08 space, one level shallower)
     for (c, d) in tier.pick(vec![(1usize, 4usize), (2, 4), (4, 3), (4096, 3)], vec![(1, 5), (2, 5), (3, 4), (4, 4), (7, 4), (4096, 4)]) {
-        let cfg = Config { chunk: c, level: 6, accept: None, payload: Payload::Rand };
+        let cfg = Config { chunk: c, level: 6, accept: None, payload: Payload::Rand, fresh_wakers: false };
         total.merge(sweep(prop, &cfg, alphabet(c, true, false, false, None), d, extra_polls));
     }
     // with abort and body drop (C11 space)
     for (c, d) in tier.pick(vec![(1usize, 4usize), (2, 4), (4096, 3)], vec![(1, 5), (2, 5), (3, 4), (4096, 4)]) {
-        let cfg = Config { chunk: c, level: 6, accept: None, payload: Payload::Rand };
+        let cfg = Config { chunk: c, level: 6, accept: None, payload: Payload::Rand, fresh_wakers: false };
         total.merge(sweep(prop, &cfg, alphabet(c, false, true, true, None), d, extra_polls));
     }
     // gzip writer (C09 / C11 space)
     for (c, level, d) in tier.pick(vec![(1usize, 6u32, 3usize), (19, 1, 3)], vec![(1, 6, 4), (19, 1, 4), (4096, 9, 4)]) {
-        let cfg = Config { chunk: c, level, accept: Some("gzip".into()), payload: Payload::Rep };
+        let cfg = Config { chunk: c, level, accept: Some("gzip".into()), payload: Payload::Rep, fresh_wakers: false };
         total.merge(sweep(prop, &cfg, alphabet(c, false, true, true, Some(vec![0, 1, 300, 5000])), d, extra_polls));
     }
     total.merge(long_runs(prop, tier, None, extra_polls));
